@@ -137,7 +137,7 @@ def evaluate(tree_json, line, path, behaviour):
     if not (isinstance(r.status, int) and not isinstance(r.status, bool) and 0 <= r.status <= 255):
         fail("status-range", "run returned %r" % (r.status,))
         return info, fails
-    if outcome != "command":
+    if outcome != "command" and "help" not in S:
         raise AssertionError("harness: generated line is not valid for its tree: %r %r %r" % (line, outcome, sinfo))
 
     printed = r.out + r.err
@@ -173,6 +173,8 @@ def evaluate(tree_json, line, path, behaviour):
                 pass
             elif "USAGE" not in strip_escapes(r.out):
                 fail("help|no-help-printed", "help switch given, stdout is %r" % (r.out[:200],))
+            elif outcome != "command" or node is None:
+                pass  # (the line could not run as it stands -- a required argument is missing: any help page will do)
             elif sinfo["followed"] == len(path) and not node.builtin:
                 text = strip_escapes(r.out)
                 if "HELPMARK-%s-END" % node.id not in text:
@@ -383,6 +385,27 @@ def _bounded(ctx):
         if ctx.out_of_time():
             break
     ctx.done(exhaustive=True, note=("all spellings x all slots for the sampled trees/lines. " + rep.note()).strip())
+
+    # ---- 1b. the help switch after a command path that could not be run as it stands (a required argument is missing,
+    #          on the command or on its default sub-command): still that command's help page and status 0
+    n_req = 12 if ctx.quick else 120
+    ctx.check("help_switch_missing_arguments",
+              "%d seeded trees whose commands take required / typed arguments (not permissive) x every enabled named command x "
+              "the path alone (names or aliases) followed by -h / --help, also with another switch in front: status 0, no "
+              "handler runs, the page of the command the path selects" % n_req)
+    done = 0
+    while done < n_req and not ctx.out_of_time():
+        t = G.random_tree(rng, permissive=False, p_default=0.6, p_disabled=0.05)
+        nodes = [n for n in t.walk_nodes() if n.enabled() and not any(a.anonymous for a in n.chain())]
+        if not any(n.arity in ("1", "+") or any(c.default and c.arity in ("1", "+") for c in n.children) for n in nodes):
+            continue
+        done += 1
+        for i, n in enumerate(nodes[:6]):
+            path = [rng.choice(m.spellings()) if i % 2 else m.name for m in n.chain()]
+            for extra in ([], ["-v"], ["--no-ansi"]):
+                for sp in ("-h", "--help"):
+                    run_case(t, path + extra + [sp], path, "write")
+    ctx.done(exhaustive=False, note=rep.note())
 
     # ---- 2. ordered pairs of spellings of different switches
     pairs = [(a, b) for a in ALL_SPELLINGS for b in ALL_SPELLINGS if SPELLING_OF[a] != SPELLING_OF[b]]
